@@ -60,6 +60,11 @@ ASSUMPTIONS = [
     "strings are printable ASCII without trailing blanks or newlines; reals are finite; negative zero is not generated at format level "
     "(sparse scatter blocks drop stored zeros by design)",
     "native little-endian 4-byte record markers (struct 'i'), as armi assumes",
+    "documented normalisations: IsotxsIO._updateFileLabel rewrites a foreign 24-character ISOTXS/GAMISO file label to 'ISOTXS' on purpose, so "
+    "the label bytes of a shipped file are not compared; ISOTXS LOCA offsets are recomputed by the writer on purpose, so the synthetic file "
+    "carries the offsets the CCCC description prescribes; the DLAYXS label width is inferred from the label, so labels are generated at full width",
+    "while the known findings 'dlayxs/ascii-unreadable' and 'ascii/rwInt-10-digit-overflows-field' stand, the ASCII encoding of DLAYXS and of the "
+    "shipped DIF3D file (LIMTIM=1000000000) cannot be judged beyond that finding; generated DIF3D containers cover the DIF3D ASCII path",
 ]
 
 I32MAX, I32MIN = 2**31 - 1, -(2**31)
@@ -828,8 +833,6 @@ def make_gen_reader(cccc):
     return GenReader
 
 
-class Refused(Exception):
-    pass
 
 
 # ============================================================================ independent record census (from the file specifications)
@@ -981,6 +984,7 @@ class Fmt:
         return {}
 
     def new_gen(self, rng, hostile):
+        Track.key, Track.n = None, 0
         g = Gen(rng, table=self.table(hostile), strings=self.strings(), **self.irange)
         g.state["hostile"] = hostile
         g.pool = self.env["pool"]
@@ -1532,6 +1536,7 @@ def roundtrips(fmt, c, rec, w, sized=None):
     except ScanError as e:
         rec.violation("framing/%s/%s" % (name, e.kind), "%s binary output: %s" % (name, e.detail), w)
         return 0
+    rec.add("binary_records_scanned", len(payloads))
     if fmt.census is not None:
         rec.hit("census")
         try:
